@@ -168,6 +168,116 @@ Section Basics.
   Qed.
 End Basics.
 
+(* ====================================================================== triangular factors of an eigenbasis *)
+Section Triangular.
+  Variable rnd : R -> R.
+  Notation Op := (R_ops rnd).
+  Notation rsum := (sumn Op).
+
+  Lemma rsum_single n i (f : nat -> R) : (i < n)%nat -> (forall k, (k < n)%nat -> k <> i -> f k = 0) -> rsum n f = f i.
+  Proof.
+    intros Hi H. rewrite (sumn_ext Op n f (fun k => if Nat.eqb k i then f k else 0)).
+    - apply (rsum_delta_r rnd n i f Hi).
+    - intros k Hk. destruct (Nat.eqb_spec k i) as [->|Hne]; [reflexivity|apply H; assumption].
+  Qed.
+
+  (* U upper triangular with U^T U = diag(d), d without zero: U is diagonal and U_ii^2 = d_i
+     (row by row: uniqueness of the Cholesky factor up to signs) *)
+  Lemma upper_tri_gram_diagonal n (U : mat R) (d : vec R) :
+    upper_tri n U -> meq n (mmul Op n (mtrans U) U) (mdiag Op d) -> (forall i, (i < n)%nat -> d i <> 0) ->
+    forall i, (i < n)%nat -> (forall j, (j < n)%nat -> j <> i -> U i j = 0) /\ U i i * U i i = d i.
+  Proof.
+    intros Hup HG Hd.
+    assert (forall m i, (i < m)%nat -> (i < n)%nat -> (forall j, (j < n)%nat -> j <> i -> U i j = 0) /\ U i i * U i i = d i) as H.
+    { induction m as [|m IH]; intros i Him Hi; [lia|].
+      assert (forall j, (j < n)%nat -> U i i * U i j = mdiag Op d i j) as Hrow.
+      { intros j Hj. rewrite <- (HG i j Hi Hj), rmmul_get by assumption.
+        symmetry. apply (rsum_single n i (fun k => mtrans U i k * U k j) Hi).
+        intros k Hk Hne. unfold mtrans.
+        destruct (Nat.lt_ge_cases k i) as [Hlt|Hge].
+        - destruct (IH k ltac:(lia) Hk) as [Hz _]. rewrite (Hz i Hi) by lia. lra.
+        - rewrite (Hup k i Hk Hi) by lia. lra. }
+      assert (U i i * U i i = d i) as Hii.
+      { rewrite (Hrow i Hi). unfold mdiag. rewrite Nat.eqb_refl. reflexivity. }
+      split; [|exact Hii]. intros j Hj Hne. specialize (Hrow j Hj). unfold mdiag in Hrow.
+      destruct (Nat.eqb_spec i j) as [->|_]; [contradiction|]. cbn [f0 R_ops] in Hrow.
+      specialize (Hd i Hi). apply Rmult_integral in Hrow. destruct Hrow as [Hz|Hz]; [|exact Hz].
+      rewrite Hz in Hii. lra. }
+    intros i Hi. apply (H (S i) i); [lia|exact Hi].
+  Qed.
+
+  (* an orthonormal eigenbasis of A for the eigenvalues L *)
+  Definition eigenbasis (n : nat) (A : mat R) (L : vec R) (X : mat R) : Prop :=
+    morth_cols Op n X /\ meq n (mmul Op n A X) (mmul Op n X (mdiag Op L)).
+
+  Lemma eigenbasis_meq n A L X X' : meq n X X' -> eigenbasis n A L X -> eigenbasis n A L X'.
+  Proof. intros H [H1 H2]. unfold eigenbasis, morth_cols in *. rewrite <- H. split; assumption. Qed.
+
+  Lemma col_signs_meq n (X X' : mat R) s : meq n X X' -> meq n (col_signs X s) (col_signs X' s).
+  Proof. intros H i j Hi Hj. unfold col_signs. rewrite (H i j Hi Hj). reflexivity. Qed.
+
+  Lemma signs_sq n s j : signs n s -> (j < n)%nat -> s j * s j = 1.
+  Proof. intros H Hj. destruct (H j Hj) as [-> | ->]; lra. Qed.
+
+  Lemma eigenbasis_col_signs n A L X s : signs n s -> eigenbasis n A L X -> eigenbasis n A L (col_signs X s).
+  Proof.
+    intros Hs [HX HA]. split.
+    - intros i j Hi Hj. rewrite rmmul_get by assumption.
+      rewrite (sumn_ext Op n _ (fun k => (s i * s j) * (mtrans X i k * X k j))).
+      2:{ intros k _. unfold mtrans, col_signs. lra. }
+      rewrite rsum_mult_l. specialize (HX i j Hi Hj). rewrite rmmul_get in HX by assumption. rewrite HX.
+      unfold mid. destruct (Nat.eqb_spec i j) as [->|_]; cbn [f0 f1 R_ops]; [rewrite (signs_sq n s j Hs Hj)|]; lra.
+    - intros i j Hi Hj. rewrite mmul_diag_r by assumption. rewrite rmmul_get by assumption.
+      rewrite (sumn_ext Op n _ (fun k => (A i k * X k j) * s j)).
+      2:{ intros k _. unfold col_signs. lra. }
+      rewrite rsum_mult_r. rewrite <- rmmul_get by assumption. rewrite (HA i j Hi Hj), mmul_diag_r by assumption.
+      unfold col_signs. lra.
+  Qed.
+
+  Lemma col_signs_compose n (X : mat R) s s' :
+    signs n s -> signs n s' ->
+    signs n (fun j => s j * s' j) /\ meq n (col_signs (col_signs X s) s') (col_signs X (fun j => s j * s' j)).
+  Proof.
+    intros H H'. split.
+    - intros j Hj. destruct (H j Hj) as [-> | ->], (H' j Hj) as [-> | ->]; [left|right|right|left]; lra.
+    - intros i j _ _. unfold col_signs. lra.
+  Qed.
+
+  (* ONE STEP: a QR factorisation of A X, X an orthonormal eigenbasis for eigenvalues without zero, has Q = X diag(+-1).
+     (X D = Q U  =>  U^T U = D^2  =>  U = diag(+-L)  =>  Q = X diag(+-1); no inverse, no sign convention needed) *)
+  Lemma qr_step_signs n A L X Q' :
+    eigenbasis n A L X -> (forall i, (i < n)%nat -> L i <> 0) -> qr_spec rnd n (mmul Op n A X) Q' ->
+    exists s, signs n s /\ meq n Q' (col_signs X s).
+  Proof.
+    intros [HX HA] HL (HQ' & U & Hup & HM).
+    assert (meq n (mmul Op n Q' U) (mmul Op n X (mdiag Op L))) as H1 by (rewrite <- HM; exact HA).
+    assert (meq n (mmul Op n (mtrans U) U) (mdiag Op (fun i => L i * L i))) as HG.
+    { unfold morth_cols in HX, HQ'.
+      transitivity (mmul Op n (mtrans (mmul Op n Q' U)) (mmul Op n Q' U)).
+      - rewrite mtrans_mmul, (mmul_assoc rnd n (mtrans U) (mtrans Q') (mmul Op n Q' U)).
+        rewrite <- (mmul_assoc rnd n (mtrans Q') Q' U), HQ', mmul_id_l. reflexivity.
+      - rewrite H1. rewrite mtrans_mmul, mtrans_diag, (mmul_assoc rnd n (mdiag Op L) (mtrans X) (mmul Op n X (mdiag Op L))).
+        rewrite <- (mmul_assoc rnd n (mtrans X) X (mdiag Op L)), HX, mmul_id_l. apply mdiag_mul. }
+    assert (forall i, (i < n)%nat -> L i * L i <> 0) as Hd.
+    { intros i Hi Hz. apply Rmult_integral in Hz. specialize (HL i Hi). tauto. }
+    pose proof (upper_tri_gram_diagonal n U (fun i => L i * L i) Hup HG Hd) as HU.
+    assert (forall i j, (i < n)%nat -> (j < n)%nat -> Q' i j * U j j = X i j * L j) as Hent.
+    { intros i j Hi Hj. rewrite <- (mmul_diag_r rnd n X L i j Hi Hj). rewrite <- (H1 i j Hi Hj).
+      rewrite rmmul_get by assumption. symmetry. apply (rsum_single n j (fun k => Q' i k * U k j) Hj).
+      intros k Hk Hne. destruct (HU k Hk) as [Hz _]. rewrite (Hz j Hj) by lia. lra. }
+    exists (fun j => L j / U j j). split.
+    - intros j Hj. destruct (HU j Hj) as [_ Hsq]. specialize (HL j Hj).
+      assert (U j j <> 0) as Hne by (intros Hz; rewrite Hz in Hsq; specialize (Hd j Hj); lra).
+      assert ((U j j - L j) * (U j j + L j) = 0) as Hprod by lra.
+      apply Rmult_integral in Hprod. destruct Hprod as [Hp|Hp]; [left|right].
+      + replace (U j j) with (L j) by lra. field. exact HL.
+      + replace (U j j) with (- L j) by lra. field. exact HL.
+    - intros i j Hi Hj. unfold col_signs. destruct (HU j Hj) as [_ Hsq].
+      assert (U j j <> 0) as Hne by (intros Hz; rewrite Hz in Hsq; specialize (Hd j Hj); lra).
+      specialize (Hent i j Hi Hj). apply (Rmult_eq_reg_r (U j j)); [|exact Hne]. rewrite Hent. field. exact Hne.
+  Qed.
+End Triangular.
+
 (* ====================================================================== theorems, any oracles meeting the contracts *)
 Section Theorems.
   Variable rnd : R -> R.
@@ -414,5 +524,51 @@ Section Theorems.
       rewrite !rayleigh_get in Hs by (apply (perm_seq_lt n _ _ Hp); lia). exact Hs.
     Qed.
   End Loop.
+
+
+  (* ---- an exact eigenbasis is left fixed up to column signs ----------------------------------------- *)
+  Lemma iterate_eigenbasis n A Q0 L :
+    eigenbasis rnd n A L Q0 -> (forall i, (i < n)%nat -> L i <> 0) ->
+    forall j Qj, iterate n A Q0 j = Some Qj -> exists s, signs n s /\ meq n Qj (col_signs Q0 s).
+  Proof.
+    intros HE HL. induction j as [|j IH]; intros Qj Hj.
+    - cbn [iterate] in Hj. inversion Hj; subst. exists (fun _ => 1). split; [intros k _; left; reflexivity|].
+      intros i k _ _. unfold col_signs. lra.
+    - cbn [iterate] in Hj. destruct (iterate n A Q0 j) as [Q|] eqn:Hit; [|discriminate].
+      destruct (qr j n (mmul Op n A Q)) as [Q'| |] eqn:Hq; try discriminate. inversion Hj; subst Q'.
+      destruct (IH Q eq_refl) as (s & Hs & HQ).
+      assert (eigenbasis rnd n A L Q) as HEQ.
+      { apply (eigenbasis_meq rnd n A L (col_signs Q0 s)); [symmetry; exact HQ|]. apply eigenbasis_col_signs; assumption. }
+      destruct (qr_step_signs rnd n A L Q Qj HEQ HL (qr_contract _ _ _ _ Hq)) as (s' & Hs' & HQj).
+      destruct (col_signs_compose n Q0 s s' Hs Hs') as [Hss Hcomp].
+      exists (fun k => s k * s' k). split; [exact Hss|].
+      rewrite HQj. rewrite (col_signs_meq n Q (col_signs Q0 s) s' HQ). exact Hcomp.
+  Qed.
+
+  (* THEOREM.  A Q0 = Q0 diag(L), Q0 orthonormal, L without zero (e.g. A positive definite) and strictly ascending:
+     whatever max_iterations and tolerance, the QR method started at Q0 returns Q0 diag(+-1). *)
+  Theorem qr_fixes_eigenbasis n A Q0 L tol dt mi sh dt' Qres :
+    (1 <= n)%nat ->
+    morth_cols Op n Q0 -> meq n (mmul Op n A Q0) (mmul Op n Q0 (mdiag Op L)) ->
+    (forall i, (i < n)%nat -> L i <> 0) -> strictly_ascending n L ->
+    r_out (orthogonal_iterations Op eigh qr argsort dt n A Q0 mi tol) = Ok sh dt' Qres ->
+    exists s, signs n s /\ meq n Qres (col_signs Q0 s).
+  Proof.
+    intros Hn HQ0 HA HL Hasc H.
+    assert (is_zero_mat Op n Q0 = false) as Hz by (apply (orth_not_zero rnd); assumption).
+    destruct (qr_iter_is_permuted_iterate n A Q0 tol dt mi sh dt' Qres Hz H) as (k & Qk & _ & Hit & _ & _ & -> & _).
+    assert (eigenbasis rnd n A L Q0) as HE by (split; assumption).
+    destruct (iterate_eigenbasis n A Q0 L HE HL k Qk Hit) as (s & Hs & HQk).
+    exists s. split; [exact Hs|]. rewrite <- HQk.
+    assert (eigenbasis rnd n A L Qk) as [HEk1 HEk2].
+    { apply (eigenbasis_meq rnd n A L (col_signs Q0 s)); [symmetry; exact HQk|]. apply eigenbasis_col_signs; assumption. }
+    apply ev_permute_cols_id.
+    apply (argsort_of_strictly_ascending n L); [|exact Hasc].
+    destruct (argsort_contract n (rayleigh Op n A Qk)) as [Hp Hsort]. split; [exact Hp|].
+    intros i j Hij Hj. specialize (Hsort i j Hij Hj).
+    rewrite !(rayleigh_get rnd) in Hsort by (apply (perm_seq_lt n _ _ Hp); lia).
+    rewrite !(rq_eigenbasis rnd n A Qk L) in Hsort by (try assumption; apply (perm_seq_lt n _ _ Hp); lia).
+    exact Hsort.
+  Qed.
 
 End Theorems.
